@@ -72,6 +72,10 @@ def gen(seed, tier):
         payloads.append({"id": "ncaller", "flavour": cfl, "via": "queued", "steps": [["sleep", rng.choice([0.0, ad])], ["execute", "nexec"], ["block"]], "helper": True})
     if rng.random() < 0.3:
         scripts[1] += [["sleep", ad], ["gc"]]
+    if rng.random() < 0.12:
+        # a thread that walks the registry of service units (a WeakSet) is descheduled in the middle
+        # of it until another thread has got some way through creating a service
+        knobs["stalls"] = knobs["stalls"] + [{"func": "__iter__", "nth": rng.randint(2, 8), "dur": 2.0, "until": "__new_service__", "k": rng.randint(2, 6)}]
     settle = 4 * ad + 3 * ad + 1.5 + sum(st["dur"] for st in knobs["stalls"])  # injected stalls delay starts legitimately
     if window:
         # submissions inside the launch window: between accept() being called and `running` being set
@@ -137,6 +141,10 @@ def check(h, reason):
     quiescent = next((e for e in ev if e["kind"] == "mark:quiescent"), None)
     q_seq = quiescent["seq"] if quiescent else None
     running_seen = next((e for e in ev if e["kind"] == "saw-running"), None)
+    if ended is not None and end_seq < stop_seq and not h.started_units_tainted():
+        # nobody stopped the runtime and no payload of these scenarios fails: if the run call ended
+        # all the same, whatever was or will be handed to it afterwards is lost
+        V("C03/run-ended-by-itself/%s" % (ended.get("type") or "returned"), "the run call ended (%s %s, causes %r) at t=%.3f although nothing had failed and nobody had stopped it: payloads and services can no longer be started" % (ended["how"], ended.get("type"), ended.get("cause_types"), ended["t"]))
     starts = {}
     for e in ev:
         if e["kind"] == "start" and e.get("mode") in ("background", "service"):
@@ -180,7 +188,7 @@ def check(h, reason):
     #     the accept loop snapshots the registry in between it starts that unit too: a known finding of
     #     its own (registration in __new__), kept apart from the clauses below.  Without a start in the
     #     requested flavour nothing is set aside.
-    tainted = sorted({getattr(svc, "pid", None) for svc, unit in h.started_units if getattr(svc, "__service_unit__", None) is not unit} - {None})
+    tainted = h.started_units_tainted()
     for pid in tainted:
         kind = specs.get(pid, {}).get("svc_class") or "?"
         V("C03/superseded-unit-started/%s" % kind, "service %s of a class decorated twice (%s, requested flavour %s): the unit registered by the base class's decorator was picked up by the accept loop before it was superseded and was started as well; starts %r" % (pid, kind, specs.get(pid, {}).get("flavour"), [x["ctx"] for x in starts.get(pid, [])]))
